@@ -10,7 +10,8 @@
        prog[t] = [s |-> server, api |-> "connect" | "indication", beh |-> backend behaviour]
    through the steps of connectionRequest.connect / ConnectWithIndication:
      Check   checkServer (twice, read lock): InProgress / AlreadyConnected / ok       [gate sw.checked]
-     Set     setInFlightConnection (write lock), then dial + login: the thread blocks
+     Set     setInFlightConnection (write lock), then the dial starts: the thread blocks in Dial
+     Dial    the TCP dial completes, handshake + login start are sent: the thread blocks again
      Backend the fake backend acts (accept / refuse / kick in login / kick after login /
              stall / hang until the request context expires); the thread wakes up     [gate sw.reset]
      Reset   deferred resetIfInFlightIs                                               [gate sw.failed]
@@ -26,7 +27,7 @@
 EXTENDS Naturals, Sequences, FiniteSets, TLC, Json
 
 CONSTANTS Threads, Servers, InitServer, Try1, Try2, Apis, Behs,
-          Atomic, StaleClears, KickClears, AllowKick, Sequential, Export
+          Atomic, StaleClears, KickClears, AllowKick, AllowQuit, Sequential, Export
 
 VARIABLES prog, pc, out,     \* per thread: request, step, outcome ("", "success", "already", "inprogress", "fail")
           inflight,          \* the connInFlight slot: a thread, "fb" or "none"
@@ -69,8 +70,12 @@ Set(t) == /\ pc[t] = "checked" /\ alive
                     /\ pc' = [pc EXCEPT ![t] = IF prog[t].api = "connect" THEN "clear" ELSE "done"]
                     /\ UNCHANGED <<inflight, live>>
                ELSE /\ inflight' = t /\ live' = live \cup {t}
-                    /\ pc' = [pc EXCEPT ![t] = "wait"] /\ UNCHANGED out
+                    /\ pc' = [pc EXCEPT ![t] = "dial"] /\ UNCHANGED out
           /\ Log("t", t) /\ UNCHANGED <<prog, cur, alive, fb, fbs>>
+
+Dial(t) == /\ pc[t] = "dial"
+           /\ pc' = [pc EXCEPT ![t] = "wait"]
+           /\ Log("d", t) /\ UNCHANGED <<prog, out, inflight, live, cur, alive, fb, fbs>>
 
 Backend(t) == /\ pc[t] = "wait"
               /\ IF prog[t].beh \in {"accept", "stall"} /\ alive
@@ -116,13 +121,21 @@ Kick == /\ AllowKick /\ alive /\ cur # "none" /\ fb = "none"
                     /\ fb' = "run" /\ fbs' = next /\ UNCHANGED alive
         /\ Log("kick", "") /\ UNCHANGED <<prog, pc, out>>
 
+\* the client quits: the proxy tears the player down (every backend connection is closed; the
+\* attempts under way fail).  Requests not yet made are not made; none sits between Check and Set.
+Quit == /\ AllowQuit /\ alive /\ fb # "run"
+        /\ \A t \in Threads : pc[t] # "checked"
+        /\ (Sequential => \A u \in Threads : ~Busy(u))
+        /\ alive' = FALSE /\ cur' = "none"
+        /\ Log("quit", "") /\ UNCHANGED <<prog, pc, out, inflight, live, fb, fbs>>
+
 \* the fallback attempt is accepted by its backend (not a schedule step: nothing to force)
 Fallback == /\ fb = "run"
             /\ cur' = fbs /\ fb' = "done" /\ live' = live \ {"fb"}
             /\ inflight' = IF inflight = "fb" THEN "none" ELSE inflight
             /\ UNCHANGED <<prog, pc, out, alive, fbs, h>>
 
-Next == Kick \/ Fallback \/ \E t \in Threads : Check(t) \/ Set(t) \/ Backend(t) \/ Reset(t) \/ Clear(t)
+Next == Kick \/ Quit \/ Fallback \/ \E t \in Threads : Check(t) \/ Set(t) \/ Dial(t) \/ Backend(t) \/ Reset(t) \/ Clear(t)
 Spec == Init /\ [][Next]_vars
 
 ----------------------------------------------------------------------------
